@@ -225,6 +225,26 @@ func oracleC01(s *Sim, y *Sys) {
 				}
 			}
 		}
+		// (f') Close is a drain: unless the close timeout (or the caller's context) ended the wait, it
+		// does not return before the result of every chunk it cut has come back and been reported
+		if cv, ok := h.CloseOp.Meta.(*closeView); ok {
+			cto := h.Spec.CloseTimeout
+			if cto == 0 {
+				cto = 10 * time.Second
+			}
+			if cv.elapsed < cto {
+				rep := map[uint32]bool{}
+				for _, r := range cv.after {
+					rep[r.Seq] = true
+				}
+				for _, q := range cv.cutSeqs {
+					if !rep[q] {
+						s.Violate("C01.close-returned-before-ack", "", "%s: Close returned nil after %v (close timeout %v) although the result of chunk seq %d had not come back: the broker acknowledges every chunk (possibly out of order), so every result must have been reported to the ack hook by the time Close returns", u, cv.elapsed, cto, q)
+						break
+					}
+				}
+			}
+		}
 		// (g) send hook: once per chunk, with the transmitted content (checked at the end of the run)
 		bySeq := map[uint32][]hookBeforeRec{}
 		for _, r := range h.Before {
